@@ -594,9 +594,10 @@ Proof.
   destruct (find_last (P_chr c) (valof (abs w) v)); reflexivity.
 Qed.
 
-(* find(x, start): the view is only taken when start < len *)
+(* find(c, start) / findOneOf(chars, start): the view is only taken when start < len; nothing of that kind is
+   found in the empty suffix at start = len *)
 Lemma ex_find_from w v (P : list Z -> bool) start o :
-  Inv w -> has (abs w) v = true ->
+  Inv w -> has (abs w) v = true -> P [] = false ->
   spec_exec (abs w) o = (abs w, RInt (find_from P (valof (abs w) v) start)) ->
   exec w o = (do n <- var_len w v;
               if n <=? start then Ok (w, RInt (-1)%Z) else
@@ -604,9 +605,31 @@ Lemma ex_find_from w v (P : list Z -> bool) start o :
               Ok (w1, RInt (match find_first P (skipn start a) with Some k => Z.of_nat (start + k) | None => (-1)%Z end))) ->
   refines_op w o.
 Proof.
-  intros I H S E. unfold refines_op. rewrite E, S. cbn [fst snd].
+  intros I H PN S E. unfold refines_op. rewrite E, S. cbn [fst snd].
   rewrite (var_len_abs _ _ I H). cbn [bind]. unfold find_from.
   destruct (length (valof (abs w) v) <=? start) eqn:G.
+  - exists w, (RInt (-1)%Z). split; [reflexivity|]. split; [exact I|]. split; [reflexivity|].
+    apply Nat.leb_le in G. destruct (length (valof (abs w) v) <? start) eqn:G2; [reflexivity|].
+    apply Nat.ltb_ge in G2. rewrite skipn_all2 by lia. cbn [find_first]. rewrite PN. reflexivity.
+  - apply Nat.leb_gt in G. destruct (length (valof (abs w) v) <? start) eqn:G2; [apply Nat.ltb_lt in G2; lia|].
+    destruct (cstr_abs w v I H) as (w1 & E1 & I1 & A1 & _). rewrite E1. cbn [bind].
+    rewrite (var_bytes_abs _ _ I1 (has_via _ _ _ A1 H)), A1. cbn [bind].
+    eexists _, _. split; [reflexivity|]. auto.
+Qed.
+
+(* find(str, start), repaired: refused only when start > len; at start = len strstr runs on the terminator *)
+Lemma ex_find_from_le w v (P : list Z -> bool) start o :
+  Inv w -> has (abs w) v = true ->
+  spec_exec (abs w) o = (abs w, RInt (find_from P (valof (abs w) v) start)) ->
+  exec w o = (do n <- var_len w v;
+              if n <? start then Ok (w, RInt (-1)%Z) else
+              do w1 <- cstr w v; do a <- var_bytes w1 v;
+              Ok (w1, RInt (match find_first P (skipn start a) with Some k => Z.of_nat (start + k) | None => (-1)%Z end))) ->
+  refines_op w o.
+Proof.
+  intros I H S E. unfold refines_op. rewrite E, S. cbn [fst snd].
+  rewrite (var_len_abs _ _ I H). cbn [bind]. unfold find_from.
+  destruct (length (valof (abs w) v) <? start) eqn:G.
   - exists w, (RInt (-1)%Z). auto.
   - destruct (cstr_abs w v I H) as (w1 & E1 & I1 & A1 & _). rewrite E1. cbn [bind].
     rewrite (var_bytes_abs _ _ I1 (has_via _ _ _ A1 H)), A1. cbn [bind].
@@ -620,7 +643,7 @@ Qed.
 
 Lemma ex_find_s_from w v l start : Inv w -> pre (abs w) (OFindSFrom v l start) = true -> refines_op w (OFindSFrom v l start).
 Proof.
-  intros I P. cbn [pre] in P. split_pre. eapply (ex_find_from w v (P_sub l) start); eauto; reflexivity.
+  intros I P. cbn [pre] in P. split_pre. eapply (ex_find_from_le w v (P_sub l) start); eauto; reflexivity.
 Qed.
 
 Lemma ex_find_oneof_from w v l start : Inv w -> pre (abs w) (OFindOneOfFrom v l start) = true -> refines_op w (OFindOneOfFrom v l start).
@@ -711,6 +734,23 @@ Proof.
   destruct (has_nth _ _ (has_via _ _ _ A1 H)) as (h1 & Hh1).
   rewrite <- A1, (valof_cells _ _ _ Hh1), map_length in HB.
   destruct (append_own_ok w1 v h1 off len I1 Hh1 HB) as (w' & E & R).
+  eapply (fin_upd_via w _ w1 v _ w' _ RNone).
+  - cbn [exec]. rewrite E1. cbn [bind]. rewrite E. reflexivity.
+  - exact A1.
+  - eapply nth_error_lt; eauto.
+  - exact R.
+  - reflexivity.
+  - rewrite map_app, map_slice, <- A1, (valof_cells _ _ _ Hh1). reflexivity.
+Qed.
+
+Lemma ex_prepend_own w v off len : Inv w -> pre (abs w) (OPrependOwn v off len) = true -> refines_op w (OPrependOwn v off len).
+Proof.
+  intros I P. cbn [pre] in P. split_pre.
+  match goal with H : (off + len <=? _) = true |- _ => apply Nat.leb_le in H; rename H into HB end.
+  destruct (cstr_abs w v I H) as (w1 & E1 & I1 & A1 & _).
+  destruct (has_nth _ _ (has_via _ _ _ A1 H)) as (h1 & Hh1).
+  rewrite <- A1, (valof_cells _ _ _ Hh1), map_length in HB.
+  destruct (prepend_own_ok w1 v h1 off len I1 Hh1 HB) as (w' & E & R).
   eapply (fin_upd_via w _ w1 v _ w' _ RNone).
   - cbn [exec]. rewrite E1. cbn [bind]. rewrite E. reflexivity.
   - exact A1.
